@@ -161,7 +161,7 @@ func runC19(c *core.Ctx) {
 	c.Rule("C19.freshslot", freshSlotText, 6)
 	checkFreshSlot(c)
 
-	c.Rule("C19.infermemo", "schema inference infers each Go type once per call: in every recursive function of bindnode that takes a reflect.Type and accumulates a freshly spawned composite type into a TypeSystem, the Accumulate call is only reachable past the miss edge of a comma-ok lookup in a map keyed by that reflect.Type, and every path from the Accumulate to a return records the type in that map - so a Go type mentioned twice (two fields of one struct type, two []string fields) is not accumulated twice (TypeSystem.Accumulate panics on a duplicate name), and two different Go types are never merged by name", 4)
+	c.Rule("C19.infermemo", "schema inference infers each Go type once per call: in every recursive function of bindnode that takes a reflect.Type and accumulates a freshly spawned composite type into a TypeSystem, the Accumulate call is only reachable past the miss edge of a comma-ok lookup in a map keyed by that reflect.Type, and every path from the Accumulate to a return records the type in that map - so a Go type mentioned twice (two fields of one struct type, two []string fields) is not accumulated twice (TypeSystem.Accumulate panics on a duplicate name), and two different Go types are never merged by name", 2)
 	checkInferMemo(c)
 
 	c.Rule("C19.unwrap", "Unwrap returns Addr().Interface() of the reflect.Value held in the node (field val of _node / _nodeRepr), never of a copy", 1)
@@ -350,16 +350,36 @@ func checkInferMemo(c *core.Ctx) {
 		if typ == nil {
 			continue
 		}
+		// recursive: fn leads back to itself through static calls inside the package (directly, or through a helper
+		// that infers the fields / the elements)
 		selfRec := false
+		{
+			seenF := map[*ssa.Function]bool{}
+			work := []*ssa.Function{fn}
+			for len(work) > 0 && !selfRec {
+				g := work[len(work)-1]
+				work = work[:len(work)-1]
+				for _, ci := range core.Calls(g) {
+					cal := ci.Common().StaticCallee()
+					if cal == nil || core.FuncPkg(cal) != pk || len(cal.Blocks) == 0 {
+						continue
+					}
+					if cal == fn {
+						selfRec = true
+					}
+					if !seenF[cal] {
+						seenF[cal] = true
+						work = append(work, cal)
+					}
+				}
+			}
+		}
 		var accs []ssa.CallInstruction
 		for _, ci := range core.CallsR(fn) {
-			if ci.Common().StaticCallee() == fn {
-				selfRec = true
-			}
 			if core.IsMethod(ci, core.ModPath+"/schema", "TypeSystem", "Accumulate") {
 				// a type spawned in this activation (not the fixed prelude of scalar types a non-recursive entry adds)
 				fresh := false
-				for w := range core.BackSlice(ci.Common().Args[len(ci.Common().Args)-1], core.SliceOpts{}) {
+				for w := range core.BackSlice(ci.Common().Args[len(ci.Common().Args)-1], core.SliceOpts{Region: core.RegionOf(fn)}) {
 					if cl, ok := w.(*ssa.Call); ok {
 						if cal := cl.Call.StaticCallee(); cal != nil && core.FuncPkg(cal) != nil && core.RelPkg(core.FuncPkg(cal).Path()) == "schema" && strings.HasPrefix(cal.Name(), "Spawn") {
 							fresh = true
